@@ -17,6 +17,7 @@ var harnesses = map[string]func(){
 	"C15Run":          C15Run,
 	"T0Pipeline":      T0Pipeline,
 	"C14BadNotation":  C14BadNotation,
+	"C04Matrix":       C04Matrix,
 	"C08CreateFunction": C08CreateFunction,
 	"C14OutIsInput":   C14OutIsInput,
 	"C17Selection":    C17Selection,
